@@ -6,13 +6,18 @@ from .sd_gen import fr
 ELEMENTS = ["c1", "fin", "bf", "fout", "fo2", "s1", "s2", "s3", "s4", "lkt", "lks", "dl", "sm", "tr", "st", "pl"]
 
 
-def build(P, rs, name="sdm", spelling=0):
+PREFIX = "plant.line."      # fully qualified names of elements created through nested Module objects
+
+
+def build(P, rs, name="sdm", spelling=0, modules=False):
+    """modules=True: every element is created through a Module nested in another Module (names plant.line.<element>)"""
     use_repo()
-    from BPTK_Py import Model, sd_functions as sd
+    from BPTK_Py import Model, Module, sd_functions as sd
     f = lambda v: float(fr(v))
     start, dt, n = f(rs["start"]), f(rs["dt"]), rs["n"]
     stop = float(fr(rs["start"]) + n * fr(rs["dt"]))
-    m = Model(starttime=start, stoptime=stop, dt=dt, name=name)
+    model = Model(starttime=start, stoptime=stop, dt=dt, name=name)
+    m = model if not modules else _Namespace(model, Module(model, "line", parent=Module(model, "plant")))
     a = m.constant("a"); a.equation = f(P["a"])
     b = m.constant("b"); b.equation = f(P["b"])
     qf = m.constant("qf"); qf.equation = f(P["q"])
@@ -41,14 +46,26 @@ def build(P, rs, name="sdm", spelling=0):
     lkt = m.converter("lkt"); lkt.equation = sd.lookup(sd.time(), "tab")
     lks = m.converter("lks"); lks.equation = sd.lookup(s1, "tab")
     dl = m.converter("dl")
-    dl.equation = sd.delay(m, c1, float(P["dn"] * fr(rs["dt"])), None if P["dinit"][1] == 0 else f(P["dinit"]))
-    sm = m.converter("sm"); sm.equation = sd.smooth(m, c1, f(P["T"]), f(P["sinit"]))
-    tr = m.converter("tr"); tr.equation = sd.trend(m, c1, f(P["T"]), f(P["tinit"]))
+    dl.equation = sd.delay(model, c1, float(P["dn"] * fr(rs["dt"])), None if P["dinit"][1] == 0 else f(P["dinit"]))
+    sm = m.converter("sm"); sm.equation = sd.smooth(model, c1, f(P["T"]), f(P["sinit"]))
+    tr = m.converter("tr"); tr.equation = sd.trend(model, c1, f(P["T"]), f(P["tinit"]))
     st = m.converter("st"); st.equation = sd.step(f(P["h"]), f(P["t0"]))
     first = float(fr(rs["start"]) + P["pfirst"] * fr(rs["dt"]))
     interval = float(P["pint"] * fr(rs["dt"]))
-    pl = m.converter("pl"); pl.equation = sd.pulse(m, f(P["pv"]), first, interval)
-    return m, start, stop, dt
+    pl = m.converter("pl"); pl.equation = sd.pulse(model, f(P["pv"]), first, interval)
+    return model, start, stop, dt
+
+
+class _Namespace:
+    """creates elements through a Module, everything else (points, run specs, smooth / delay helpers) goes to the Model"""
+
+    def __init__(self, model, module):
+        self._model, self._module = model, module
+
+    def __getattr__(self, name):
+        if name in ("stock", "flow", "biflow", "converter", "constant"):
+            return getattr(self._module, name)
+        return getattr(self._model, name)
 
 
 EDITABLE = ["c1", "fin", "bf", "fout", "fo2", "s1", "s2", "s3", "s4", "lkt", "lks"]      # elements that do not capture parameters when built
